@@ -150,6 +150,10 @@ func runC15(c *core.Ctx) core.Meta {
 		}
 	})
 
+	{
+		stp := c.Rule("R15.10", "the component keeps ticking while any of its steps made progress: where a function with a bool result collects its answer in a loop (over requests per cycle, banks, ports), the value carried around the loop is derived from itself on the back edge (p = step() || p). A plain assignment keeps only the last iteration's answer; the component reports no progress and is not ticked again although an earlier iteration left work to continue", 1)
+		checkProgressAccumulated(c, stp, "R15.10", p, "The component stops ticking with work pending; requests already accepted are never completed")
+	}
 	// R15.9 a handled message leaves its port
 	st9 := c.Rule("R15.9", "a message the reorder buffer looked at and reported progress for is taken off its port: from PeekIncoming (message present) no path of a handler reaches `return true` without RetrieveIncoming on the same port (callees followed); a message left at the head is handled again on the next tick (a request forwarded twice, a response attached twice) and blocks the port", 2)
 	checkPeekedHandledConsumed(c, st9, "R15.9", p, "the same message is handled again on the next tick")
